@@ -16,6 +16,7 @@ Mk(tpl, t, j) ==
   LET k == 8 * j + t
       E(code, cls, q, a) == [k |-> k, tid |-> t, code |-> code, cls |-> cls, q |-> q, a |-> a]
   IN CASE tpl = "NTD" -> E(1, "NTD", 0, [ntid |-> 10 + t, pid |-> 100 + t])
+       [] tpl = "NTDo" -> E(1, "NTD", 0, [ntid |-> IF t = 1 THEN 2 ELSE 1, pid |-> 110 + t])   \* names the other, live thread
        [] tpl = "NTS" -> E(2, "NTS", 3, [name |-> IF t = 1 THEN "one" ELSE IF t = 2 THEN "two" ELSE "three"])
        [] tpl = "EXD" -> E(3, "EXD", 0, [pid |-> 200 + t])
        [] tpl = "EXS" -> E(4, "EXS", 3, [name |-> IF t = 1 THEN "x1" ELSE IF t = 2 THEN "x2" ELSE "x3"])
